@@ -27,6 +27,9 @@ type TestSpec struct {
 	Path string  `json:"path,omitempty"` // z.IssuePath
 	Mod  int64   `json:"mod,omitempty"`  // custom: passes iff fnv(canon(value))%Mod != Rem; Mod==0 always passes
 	Rem  int64   `json:"rem,omitempty"`
+	MsgFn    bool `json:"msgfn,omitempty"`    // z.MessageFunc setting "MF:<code>"
+	Params   []KV `json:"params,omitempty"`   // z.Params(...) replaces the test's params
+	Reusable bool `json:"reusable,omitempty"` // custom test built with z.TestFunc(code, fn, opts...) and added with schema.Test(t)
 }
 
 type PTSpec struct {
@@ -50,6 +53,7 @@ type Node struct {
 	Fields []*Field   `json:"fields,omitempty"`
 	Elem   *Node      `json:"elem,omitempty"`
 	CT     string     `json:"ct,omitempty"` // custom: "string"|"int"; pre: "any_str"|"str_list"
+	ReqOpt *TestSpec  `json:"req_opt,omitempty"` // options passed to Required()/NotNil(): Msg, Code, Path
 	ID     int        `json:"-"`
 }
 
@@ -77,6 +81,10 @@ func (n *Node) Clone() *Node {
 		}
 	}
 	c.PTs = append([]PTSpec(nil), n.PTs...)
+	if n.ReqOpt != nil {
+		ro := *n.ReqOpt
+		c.ReqOpt = &ro
+	}
 	c.Fields = nil
 	for _, f := range n.Fields {
 		nf := &Field{Key: f.Key, Tags: append([]KV(nil), f.Tags...), N: f.N.Clone()}
@@ -455,7 +463,30 @@ func testOpts(t TestSpec) []z.TestOption {
 	if t.Path != "" {
 		o = append(o, z.IssuePath(t.Path))
 	}
+	if t.MsgFn {
+		o = append(o, z.MessageFunc(func(e *z.ZogIssue, c z.Ctx) { e.SetMessage("MF:" + e.Code) }))
+	}
+	if len(t.Params) > 0 {
+		m := map[string]any{}
+		for _, kv := range t.Params {
+			m[kv.K] = kv.V.ToGo()
+		}
+		if paramsOwner != nil {
+			paramsOwner(m)
+		}
+		o = append(o, z.Params(m))
+	}
 	return o
+}
+
+// paramsOwner, when set, is told about every map handed to z.Params (the caller still owns that map).
+var paramsOwner func(map[string]any)
+
+func reqOpts(n *Node) []z.TestOption {
+	if n.ReqOpt == nil {
+		return nil
+	}
+	return testOpts(*n.ReqOpt)
 }
 
 func (e *Engine) customFn(n *Node, idx int, t TestSpec, wantAddr bool) z.BoolTFunc {
@@ -481,6 +512,10 @@ func (e *Engine) postTransform(n *Node, idx int, p PTSpec) z.PostTransform {
 			return fmt.Errorf("pt-error n%d#%d", n.ID, idx)
 		case "issue":
 			return (&z.ZogIssue{}).SetCode("pt_issue").SetMessage(fmt.Sprintf("pt-issue n%d#%d", n.ID, idx))
+		case "wrapped":
+			// an ordinary error that merely has a ZogIssue somewhere in its chain is still an ordinary error
+			inner := (&z.ZogIssue{}).SetCode("inner_issue").SetPath("elsewhere").SetMessage("inner")
+			return fmt.Errorf("pt-error n%d#%d: %w", n.ID, idx, inner)
 		}
 		return nil
 	}
@@ -588,7 +623,7 @@ func (e *Engine) Build(n *Node) z.ZogSchema {
 	case "string":
 		s := z.String()
 		if n.Req {
-			s.Required()
+			s.Required(reqOpts(n)...)
 		}
 		if n.Def != nil {
 			s.Default(n.Def.S)
@@ -599,7 +634,11 @@ func (e *Engine) Build(n *Node) z.ZogSchema {
 		for i, t := range n.Tests {
 			o := testOpts(t)
 			if t.T == "custom" {
-				s.TestFunc(e.customFn(n, i, t, false), o...)
+				if t.Reusable {
+					s.Test(z.TestFunc(t.Code, e.customFn(n, i, t, false), o...))
+				} else {
+					s.TestFunc(e.customFn(n, i, t, false), o...)
+				}
 				continue
 			}
 			var ns z.NotStringSchema[string]
@@ -694,7 +733,7 @@ func (e *Engine) Build(n *Node) z.ZogSchema {
 	case "int":
 		s := z.Int()
 		if n.Req {
-			s.Required()
+			s.Required(reqOpts(n)...)
 		}
 		if n.Def != nil {
 			s.Default(int(n.Def.I))
@@ -730,7 +769,7 @@ func (e *Engine) Build(n *Node) z.ZogSchema {
 	case "float":
 		s := z.Float64()
 		if n.Req {
-			s.Required()
+			s.Required(reqOpts(n)...)
 		}
 		if n.Def != nil {
 			s.Default(numVal(*n.Def))
@@ -766,7 +805,7 @@ func (e *Engine) Build(n *Node) z.ZogSchema {
 	case "bool":
 		s := z.Bool()
 		if n.Req {
-			s.Required()
+			s.Required(reqOpts(n)...)
 		}
 		if n.Def != nil {
 			s.Default(n.Def.B)
@@ -795,7 +834,7 @@ func (e *Engine) Build(n *Node) z.ZogSchema {
 	case "time":
 		s := z.Time()
 		if n.Req {
-			s.Required()
+			s.Required(reqOpts(n)...)
 		}
 		if n.Def != nil {
 			s.Default(MustTime(n.Def.S))
@@ -825,7 +864,7 @@ func (e *Engine) Build(n *Node) z.ZogSchema {
 	case "slice":
 		s := z.Slice(e.Build(n.Elem))
 		if n.Req {
-			s.Required()
+			s.Required(reqOpts(n)...)
 		}
 		if n.Def != nil {
 			s.Default(e.own("default", n, Populate(TypeOf(n), *n.Def).Interface()))
@@ -870,7 +909,7 @@ func (e *Engine) Build(n *Node) z.ZogSchema {
 	case "ptr":
 		s := z.Ptr(e.Build(n.Elem))
 		if n.Req {
-			s.NotNil()
+			s.NotNil(reqOpts(n)...)
 		}
 		return s
 	case "custom":
@@ -903,7 +942,11 @@ func (e *Engine) Build(n *Node) z.ZogSchema {
 		default: // any_str
 			return z.Preprocess[any, string](func(data any, ctx z.Ctx) (string, error) {
 				rec := e.record(n, "pre", 0, data, ctx, false)
-				s, ok := derefAll(data).(string)
+				dv := derefAll(data)
+				s, ok := dv.(string)
+				if rv := reflect.ValueOf(dv); !ok && rv.IsValid() && rv.Kind() == reflect.Pointer && rv.IsNil() {
+					s, ok = "", true // a nil pointer (Validate of an absent *string): nothing to preprocess
+				}
 				if !ok {
 					return "", fmt.Errorf("pre: not a string: %T", data)
 				}
